@@ -2260,7 +2260,9 @@ func TestC07(t *testing.T) {
 	noExclude := os.Getenv("C07_NO_EXCLUDE") == "1"
 
 	// 0. witnesses of the known root causes decide this run's exclusions
-	wbase := func(v int32) *c07Base { return &c07Base{Form: "ak", Auto: true, Spec: hx.TxSpec{From: 0, Seq: 1, Version: v}} }
+	wbase := func(v int32) *c07Base {
+		return &c07Base{Form: "ak", Auto: true, Spec: hx.TxSpec{From: 0, Seq: 1, Version: v}}
+	}
 	xsbase := &c07Base{Form: "xsign", Auto: true, Spec: hx.TxSpec{From: 0, Seq: 1, Version: 3}, Signers: []c07Signer{{Key: 1}}}
 	witnesses := []struct {
 		id string
